@@ -554,6 +554,91 @@ def run_episodes(ctx):
              distinct_nontrivial=len(set(mins)))
 
 
+def dcid_case(args):
+    """The key-holding peer addresses its packets to several of the endpoint's connection IDs in turn
+    (reordering around a connection-ID change looks like that), more often than the endpoint has spare
+    peer connection IDs to answer each switch with a fresh one: all of it is legal input."""
+    role, pattern, n = args
+    out = {"viol": None, "n": 0, "role": role, "pattern": pattern, "switches": 0}
+    bot = peerbot.PeerBot(role, cut="connected")
+    step = 0
+    try:
+        cids = bot.e_cids()
+        seqs = sorted(cids)[:3]
+        if len(seqs) < 2:
+            raise core.HarnessError("endpoint issued fewer than two connection IDs")
+        last = None
+        for i in range(n):
+            step = i
+            s = seqs[pattern[i % len(pattern)] % len(seqs)]
+            bot.dcid = cids[s]
+            if s != last:
+                out["switches"] += 1
+            last = s
+            bot.send([{"t": "PING"}])
+            out["n"] += 1
+            if bot.E.conn._state.name != "CONNECTED":
+                break
+            if i % 5 == 4:
+                bot.advance(0.002)
+                t = bot.E.conn.get_timer()
+                if t is not None and t != bot.E.conn._close_at and t <= bot.w.now:
+                    bot.timer()
+        bot.drive_to_end(max_timers=2)
+    except core.HarnessError:
+        raise
+    except Exception as e:  # noqa
+        entry, inner = classify(e)
+        if inner is None:
+            raise
+        out["viol"] = ({"monitor": "api_exception", "exc": type(e).__name__, "where": inner, "entry": entry,
+                        "role": role, "input": "alternating_destination_connection_ids"},
+                       "%s: %s in %s (API entry %s) at packet %d of a peer that alternates between the %s endpoint's "
+                       "connection IDs in the pattern %r" % (type(e).__name__, e, inner, entry, step, role, pattern))
+    return out
+
+
+def run_dcid(ctx):
+    pats = [(0, 1), (1, 0, 2), (0, 0, 1), (1, 2), (0, 1, 1, 2)]
+    tasks = [(role, p, 24) for role in ("server", "client") for p in pats]
+    res = core.pmap(dcid_case, tasks)
+    for r in res:
+        if r["viol"]:
+            ctx.violation(r["viol"][0], r["viol"][1], {"part": "dcid", "role": r["role"], "pattern": list(r["pattern"])})
+    ctx.part("alternating_destination_connection_ids", evaluations=sum(r["n"] for r in res), states=len(res),
+             transitions=sum(r["n"] for r in res), distinct_nontrivial=len(set(r["switches"] for r in res)) + 1,
+             max_switches=max(r["switches"] for r in res))
+
+
+def run_ack_patterns(ctx):
+    """Every arrival order of small sets of packet numbers, ack-eliciting packets mixed with ACK-only packets
+    that acknowledge everything the endpoint has sent (C12's pattern generator; C12 judges the ACK frames,
+    here only: nothing raises)."""
+    from checks import c12_gaps
+
+    pats = c12_gaps.patterns(ctx.tier) + c12_gaps.long_patterns("quick")
+    tasks = []
+    for role in ("server", "client"):
+        for i in range(0, len(pats), 40):
+            tasks.append((role, pats[i:i + 40]))
+    res = core.pmap(c12_gaps.run_pattern, tasks)
+    n = 0
+    seen = set()
+    for r in res:
+        n += r["n"]
+        for sig, what, rp in sorted(r["viol"], key=lambda x: len(x[2]["pattern"])):
+            if sig.get("monitor") != "api_exception":
+                continue
+            sig = {"monitor": "api_exception", "exc": sig.get("exc"), "input": "packet_number_arrival_pattern"}
+            k = core.stable_hash(sig)
+            if k in seen:
+                continue
+            seen.add(k)
+            ctx.violation(sig, "%s [a real %s endpoint, arrival pattern of a key-holding peer]" % (what, rp["role"]),
+                          {"part": "ack_patterns", "role": rp["role"], "pattern": rp["pattern"]})
+    ctx.part("packet_number_arrival_patterns", evaluations=n, states=n, transitions=n * 3, distinct_nontrivial=len(pats))
+
+
 def run_budget(ctx):
     tasks = [(L, trig) for L in range(0, 44) for trig in ("handshake_done", "unknown", "crypto_garbage")]
     res = core.pmap(budget_case, tasks, chunksize=4)
@@ -741,6 +826,8 @@ def run(ctx):
     run_configs(ctx)
     run_loss(ctx)
     run_episodes(ctx)
+    run_ack_patterns(ctx)
+    run_dcid(ctx)
     # hostile TLS messages with valid MACs from a key-holding QUIC-level adversary
     from checks import c05_tls
 
@@ -777,6 +864,23 @@ def replay(ctx, obj):
         if r["viol"]:
             print("VIOLATION property=C05 replay=(replayed): %s" % r["viol"][1])
             return 1
+        return 0
+    if rp.get("part") == "dcid":
+        r = dcid_case((rp["role"], tuple(rp["pattern"]), 24))
+        print({k: v for k, v in r.items() if k != "viol"})
+        if r["viol"]:
+            print("VIOLATION property=C05 replay=(replayed): %s" % r["viol"][1])
+            return 1
+        return 0
+    if rp.get("part") == "ack_patterns":
+        from checks import c12_gaps
+
+        r = c12_gaps.run_pattern((rp["role"], [tuple(rp["pattern"])]))
+        for sig, what, _ in r["viol"]:
+            if sig.get("monitor") == "api_exception":
+                print("VIOLATION property=C05 replay=(replayed): %s" % what)
+                return 1
+        print("no violation on replay")
         return 0
     if rp.get("part") == "episodes":
         r = episodes_case((rp["role"], rp["cc"], [tuple(b) for b in rp["blocks"]]))
